@@ -68,7 +68,7 @@ pub fn spec() -> PropSpec<Case> {
         .boxed()
     },
     check,
-    cases: |tier| tier.pick(15_000, 300_000),
+    cases: |tier| tier.pick(15_000, 200_000),
     rule: "1-3 generated packages, each optionally depending on the next (`export * from \"jsr:...\"`, a by-name re-export, or an exported alias of an imported type), each imported by the root module or reachable only through its dependent; several entrypoints; histories of 3-7 steps over one shared cache: fast check, edit (toggle annotated / non-inferable, toggle export, change kind of one declaration, toggle whether the root imports a package), rebuild, fast check again; each cached fast check is shadowed by a cache-less run and a repeated cache-less run on clones of the same graph; non-trivial = some cached step hit the cache after an edit of a traced module (a stale entry existed) or hit it warm; distinct = distinct case JSON",
     assumptions: &[
       "packages are analysed as registry packages (should_error_on_first_diagnostic = true)",
